@@ -737,9 +737,9 @@ val flush : lstate -> ctok list
 
 val lex_items : lstate -> item list -> ctok list
 
-val count_dots : char list -> nat
+val lit_dots : char list -> nat
 
-val count_digits0 : char list -> nat
+val lit_digits : char list -> nat
 
 val num_ok : char list -> bool
 
